@@ -15,8 +15,13 @@ def check_pair(inp):
     L = fm.lang(logic)
     tf, tg = fm.from_json(inp['f']), fm.from_json(inp['g'])
     try:
-        a = fm.to_lib(tf, L)
-        b = fm.to_lib(tg, L, raw_leaves=inp.get('raw', False))
+        # 'share': subformula OBJECTS reused inside a formula (a: only f, b: only g, both: each its own,
+        # common: one pool for the two formulas)
+        sh = inp.get('share')
+        pool_a = {} if sh in ('a', 'both', 'common') else None
+        pool_b = pool_a if sh == 'common' else ({} if sh in ('b', 'both') else None)
+        a = fm.to_lib(tf, L, share=pool_a)
+        b = fm.to_lib(tg, L, raw_leaves=inp.get('raw', False), share=pool_b)
         same = (tf == tg)
         eq_ab = (a == b)
         eq_ba = (b == a)
@@ -54,7 +59,7 @@ def check_clone(inp):
     L = fm.lang(logic)
     t = fm.from_json(inp['f'])
     try:
-        a = fm.to_lib(t, L, raw_leaves=inp.get('raw', False))
+        a = fm.to_lib(t, L, raw_leaves=inp.get('raw', False), share={} if inp.get('share') else None)
         c = a.clone()
         if fm.structure(c) != t:
             return Failure('clone', inp, list(t), list(fm.structure(c)), 'clone has another tree')
@@ -160,6 +165,58 @@ def deep_scope(logic, atoms, stride):
         return paths + [('A', g) for g in paths[::2]]
     un = fm.LTL_UN + [('A', lambda f: ('A', f)), ('E', lambda f: ('E', f))]
     return fm.enum_strided(un, fm.LTL_BIN, leaves, 3, stride)
+
+
+def shared_pairs(logic, stride):
+    """(f, g) with a compound subformula occurring at least twice in f and g differing from f in ONE of
+    the occurrences only (or not at all): the cases in which it matters that the occurrences are one
+    object."""
+    un_s = fm.LTL_UN + [('A', lambda f: ('A', f)), ('E', lambda f: ('E', f))]
+    un, bn = {'PL': (fm.PL_UN, fm.PL_BIN), 'CTL': (fm.CTL_UN, fm.CTL_BIN), 'LTL': (fm.LTL_UN, fm.LTL_BIN),
+              'CTLS': (un_s, fm.LTL_BIN)}[logic]
+    ctxs = fm.contexts(un, bn, 2, 'c11-' + logic)
+    subs = fm.enum_exact(un, bn, (fm.P, fm.Q), 1, 'c11s-' + logic)
+    out = []
+    i = 0
+    for c in ctxs:
+        n = fm._count(c, fm.SLOT)
+        for si, s_ in enumerate(subs):
+            i += 1
+            if i % stride:
+                continue
+            s2 = subs[(si * 5 + 3) % len(subs)]
+            if s2 == s_:
+                s2 = subs[(si + 1) % len(subs)]
+            f = fm.subst(c, fm.SLOT, s_)
+            for pos in range(n):
+                g = fm.subst_each(c, fm.SLOT, [s2 if j == pos else s_ for j in range(n)])
+                if fm.kind(logic, f) and fm.kind(logic, g):
+                    out.append((f, g))
+    return out
+
+
+def shared_shard(st, shard, nshards, payload):
+    i = -1
+    for logic in LOGICS:
+        for (f, g) in shared_pairs(logic, payload['stride']):
+            i += 1
+            if i % nshards != shard:
+                continue
+            for mode in ('a', 'b', 'both', 'common'):
+                st.evaluations += 1
+                st.nontrivial += 1
+                st.bump('shared subformula objects: %s' % mode)
+                r = check_pair({'logic': logic, 'f': f, 'g': g, 'share': mode}) or \
+                    check_pair({'logic': logic, 'f': g, 'g': f, 'share': mode}) or \
+                    check_pair({'logic': logic, 'f': f, 'g': f, 'share': mode})
+                if r is None and mode == 'a':
+                    r = check_clone({'logic': logic, 'f': f, 'share': True})
+                if r is not None:
+                    if st.failure is None:
+                        st.failure = r
+                    return
+            if i % 997 == 0:
+                st.sample({'logic': logic, 'f': f, 'g': g, 'share': 'a'}, cls='shared-' + logic)
 
 
 def enum_shard(st, shard, nshards, payload):
@@ -272,7 +329,8 @@ def run(ctx):
                 'formulas with exactly 3 operators must give pairwise distinct dict keys.  Oracle: tree identity '
                 '(harness tuples) vs ==, !=, hash, set and dict behaviour, symmetry, reflexivity; '
                 'clone(): equal, same tree, no node object and no children list shared; Bool vs '
-                'Python bool in both argument orders; random triples for transitivity.  '
+                'Python bool in both argument orders; random triples for transitivity; formulas whose repeated subformulas are ONE '
+                'object (built once, used at several places), compared with formulas that differ in one of the occurrences.  '
                 'Non-trivial pair = two different trees whose fully parenthesised texts have equal '
                 'length (near collisions).')
     atomsets = {}
@@ -298,6 +356,15 @@ def run(ctx):
             return
     f = core.run_sharded(ctx, enum_shard, {'k': 2, 'atomsets': atomsets, 'block': ctx.pick(64, 400),
                                            'deep_stride': ctx.pick(11, 2)})
+    if f is not None:
+        ctx.violation(f)
+        return
+
+    stride = ctx.pick(7, 1)
+    ctx.scopes.append('shared subformula objects: every %s(context of <= 2 operators with a slot occurring at least twice, '
+                      'one-operator formula for the slot) per logic; f with the slot filled alike, g differing in ONE occurrence; built '
+                      'with the occurrences as one object in f, in g, in both, or from one pool for both' % ('7th ' if stride > 1 else ''))
+    f = core.run_sharded(ctx, shared_shard, {'stride': stride})
     if f is not None:
         ctx.violation(f)
         return
